@@ -42,7 +42,7 @@ type job struct {
 }
 
 var allLinks = []int{linkEthernet, linkRaw, linkIPv4, linkSLL, linkSLL2, linkNull}
-var allFormats = []int{fmtPcapLE, fmtPcapBE, fmtPcapNsLE, fmtPcapNsBE, fmtPcapngLE, fmtPcapngBE}
+var allFormats = []int{fmtPcapLE, fmtPcapBE, fmtPcapNsLE, fmtPcapNsBE, fmtPcapngLE, fmtPcapngBE, fmtPcapSnap16, fmtPcapSnap0, fmtPcapngSnap16, fmtPcapngSnap0}
 
 type params struct {
 	MaxLen0      int   `json:"dev0_payload_max"`           // deviation free set: payload bound
